@@ -81,6 +81,14 @@ func runCrash(c *evid.Ctx, id string, cfg crashCfg) {
 	if id == "C13" {
 		c13Pinning(c)
 	}
+	if id == "C01" || id == "C03" || id == "C04" {
+		// power-loss images of the production stack (real fs, real BoltDB) replayed from strace
+		if quick(c) {
+			replayPart(c, 3, 24, 2, "log")
+		} else {
+			replayPart(c, 16, 70, 1, "log")
+		}
+	}
 	c.Extra("behaviour_calibrated", crashsim.BehaviourUsed())
 	c.Extra("params", p)
 }
@@ -91,6 +99,21 @@ func replayCrash(c *evid.Ctx, p crashsim.Params) {
 	if err != nil {
 		fmt.Println("HARNESS-ERROR cannot read replay file:", err)
 		os.Exit(2)
+	}
+	var gen struct {
+		Case struct {
+			Seed *int64 `json:"seed"`
+			Ops  int    `json:"ops"`
+			Mix  string `json:"mix"`
+		} `json:"case"`
+	}
+	if json.Unmarshal(b, &gen) == nil && gen.Case.Seed != nil && gen.Case.Ops > 0 {
+		// a power-loss image replayed from a syscall trace: re-run that traced scenario
+		c.Sample(map[string]any{"replay": c.Replay})
+		replayScenario(c, *gen.Case.Seed, gen.Case.Ops, 1, gen.Case.Mix)
+		c.Distinct(c.DistinctKey(), "replay-a")
+		c.Distinct(c.DistinctKey(), "replay-b")
+		return
 	}
 	var rf struct {
 		Case struct {
